@@ -13,7 +13,7 @@ from rsocket.error_codes import ErrorCode
 from rsocket.frame import (SetupFrame, LeaseFrame, KeepAliveFrame, RequestResponseFrame, RequestFireAndForgetFrame,
                            RequestStreamFrame, RequestChannelFrame, RequestNFrame, CancelFrame, PayloadFrame,
                            ErrorFrame, MetadataPushFrame, ResumeFrame, ResumeOKFrame, InvalidFrame, Frame, FrameType)
-from rsocket.frame_builders import to_request_response_frame
+from rsocket.frame_builders import to_request_response_frame, to_request_stream_frame, to_payload_frame
 from rsocket.frame_parser import FrameParser
 from rsocket.helpers import create_future
 from rsocket.payload import Payload
@@ -155,11 +155,29 @@ CODES = tuple(ErrorCode)
 class _H(BaseRequestHandler):
     def __init__(self):
         self.futs = []
+        self.calls = 0          # invocations of request entry points
+        self.pubs = []
 
     async def request_response(self, p):
+        self.calls += 1
         if p.data == b'boom':
             raise RuntimeError('handler failed')
         return _done(Payload(b'ok' + (p.data or b'')))
+
+    async def request_stream(self, p):
+        self.calls += 1
+        pub = RecPub()          # a live stream: emits only when the harness says so
+        self.pubs.append(pub)
+        return pub
+
+    async def request_fire_and_forget(self, p):
+        self.calls += 1
+
+    async def request_channel(self, p):
+        self.calls += 1
+        pub = RecPub()
+        self.pubs.append(pub)
+        return pub, Rec()
 
 
 def _done(v):
@@ -270,12 +288,15 @@ def c_frames_to_endpoint(ft2: int, s2: int, fa: bool, fb: bool, fc: bool, n: int
             loop.create_task(ep.connect())
         loop.run_ready()
         mine = ep.request_response(Payload(b'q'))                # live own stream
-        pend = RequestStreamFrame()                                 # live peer stream: a request-stream nobody serves
-        pend.stream_id = peer_live
-        pend.initial_request_n = 1
-        pend.data = b'x'
-        loop.run_ready()
         ctx = CTX
+        live_peer = ctx != 3          # (in context 3 the "live peer id" is the stream whose request is still incomplete)
+        if live_peer:
+            # live peer stream: a request-stream being served by a publisher that has not emitted yet
+            t.feed_wire(to_request_stream_frame(peer_live, Payload(b'x'), initial_request_n=5))
+        loop.run_ready()
+        h = ep._handler
+        own0 = ep._stream_control._streams.get(own_live)
+        peer0 = ep._stream_control._streams.get(peer_live) if live_peer else None
         if ctx == 1:
             t.feed(InvalidFrame())
         elif ctx == 2:
@@ -283,14 +304,18 @@ def c_frames_to_endpoint(ft2: int, s2: int, fa: bool, fb: bool, fc: bool, n: int
         elif ctx == 3:
             t.feed(_mk(3, peer_live, True, False, False, 0, code))
         elif ctx == 4:
-            bad = to_request_response_frame(peer_live, Payload(b'boom'))
+            bad = to_request_response_frame(peer_live + 10, Payload(b'boom'))
             t.feed_wire(bad)
         loop.run_ready()
         n_before = len(t.sent)
+        calls_before = h.calls
+        fresh_requests = 0            # hostile frames that are complete requests on an id that is not in use
         fr = _mk(ft2, sid2, fa, fb, fc, n, code)
         if fr is not None:
             t.feed(fr)
             loop.run_ready()
+            if 3 <= ft2 <= 6 and sid2 not in (own_live, peer_live):
+                fresh_requests += 1      # (a request on stream 0 is served too: tolerated, nothing is taken down)
         offenders = {sid2, 0}
         if SECOND:
             ft3 = conc(ft3, 0, 13)
@@ -299,8 +324,19 @@ def c_frames_to_endpoint(ft2: int, s2: int, fa: bool, fb: bool, fc: bool, n: int
             if fr3 is not None:
                 t.feed(fr3)
                 loop.run_ready()
+                if 3 <= ft3 <= 6 and sid3 not in (own_live, peer_live):
+                    fresh_requests += 1
             offenders.add(sid3)
         devs = []
+        # a request frame that re-uses an id in use never reaches the application and never replaces the live stream
+        if live_peer and h.calls - calls_before > fresh_requests:
+            devs.append('C12:request-on-a-stream-id-in-use-reached-the-application')
+        cur = ep._stream_control._streams.get(own_live)
+        if cur is not None and cur is not own0:
+            devs.append('C12:live-own-stream-replaced-by-hostile-frame')
+        cur = ep._stream_control._streams.get(peer_live)
+        if live_peer and cur is not None and cur is not peer0:
+            devs.append('C12:live-peer-stream-replaced-by-hostile-frame')
         d = generic_dev(loop, ep)
         if d:
             devs.append(d)
@@ -320,6 +356,19 @@ def c_frames_to_endpoint(ft2: int, s2: int, fa: bool, fb: bool, fc: bool, n: int
         ans = [f for _, f in t.sent[n0:] if f.stream_id == probe_id]
         if len(ans) != 1 or not isinstance(ans[0], PayloadFrame) or bytes(ans[0].data) != b'okp' or not ans[0].flags_complete:
             devs.append('probe-request-not-answered-correctly-after-hostile-input')
+        # the interactions that were in progress and did not offend are still served
+        if own_live not in offenders:
+            t.feed_wire(to_payload_frame(own_live, Payload(b'mine-answer'), complete=True))
+            loop.run_ready()
+            if not mine.done() or mine.cancelled() or mine.exception() is not None or not bytes(mine.result().data).endswith(b'mine-answer'):   # (context 2: appended to the pending fragment)
+                devs.append('C12:own-pending-request-no-longer-resolvable-after-hostile-input')
+        if live_peer and peer_live not in offenders and h.pubs:
+            n1 = len(t.sent)
+            h.pubs[0].emit(Payload(b'el'))
+            loop.run_ready()
+            got = [f for _, f in t.sent[n1:] if f.stream_id == peer_live]
+            if len(got) != 1 or not isinstance(got[0], PayloadFrame) or bytes(got[0].data) != b'el':
+                devs.append('C12:live-peer-stream-no-longer-served-after-hostile-input')
         stats.note(True, {'role': ROLE, 'ctx': ctx, 'ft2': ft2, 'sid2': sid2, 'second': SECOND})
         t.eof()
         loop.run_ready()
